@@ -5,6 +5,8 @@
 import EqlModel.Decode
 import EqlModel.Eval
 import EqlModel.SpecExec
+import EqlModel.Cache
+import EqlModel.Lemmas.CacheDefs
 
 open Eql Eql.Sexp
 
@@ -70,9 +72,53 @@ def runQuery (args : List Sexp) : Option String := do
   else
     return s!"{id}\tR\t{renderRows (rows W D q)}\tS\t{renderRows spec}\tB\t{(q.cond.map showCond).getD "-"}"
 
+-- ---------------------------------------------------------------- cache histories (C20)
+
+open Eql.Cache in
+def decAsg (s : Sexp) : Option (Cache.Asg Nat) := do
+  let xs ← s.list?
+  xs.mapM fun x => match x with
+    | .list [k, v] => do pure ((← k.nat?), (← v.nat?))
+    | _ => none
+
+def showAsg (a : Cache.Asg Nat) : String :=
+  let sorted := a.mergeSort (fun x y => x.1 ≤ y.1)
+  ",".intercalate (sorted.map fun kv => s!"{kv.1}={kv.2}")
+
+def showRetr (rs : List (Cache.Asg Nat × Nat)) : String :=
+  let strs := rs.map fun r => s!"{showAsg r.1}>{r.2}"
+  "+".intercalate (strs.mergeSort (fun x y => x ≤ y))
+
+/-- `(cache id (keys k..) (ops (ins ((k v)..) out) (clr) ..) (lookups ((k v)..) ..))`:
+    after every operation, for every lookup: coverage check, retrieval, complete reference retrieval,
+    and whether the trie is prefix-uniform. -/
+def runCache (args : List Sexp) : Option String := do
+  let id ← (← args.head?).atom?
+  let keys ← (← field? "keys" args).mapM Sexp.nat?
+  let ops ← field? "ops" args
+  let lookups ← (← field? "lookups" args).mapM decAsg
+  let mut c : Cache.Cache Nat Nat := { keys := keys }
+  let mut outs : List String := []
+  for op in ops do
+    match op.headed? with
+    | some ("ins", [a, o]) => c := c.insert (← decAsg a) (← o.nat?)
+    | some ("clr", []) => c := c.clear
+    | _ => none
+    let uniform := Cache.Uniform c.trie
+    let entries := Cache.Trie.toEntries c.trie
+    let per := lookups.map fun a =>
+      let chk := if a.isEmpty then "-" else (if (c.check a).1 then "1" else "0")
+      let got := showRetr (c.retrieve a)
+      let ref := showRetr ((entries.filter fun e => Cache.agree a keys e.1).map
+        fun e => (Cache.image a keys e.1 a, e.2))
+      s!"{chk}:{got}:{ref}"
+    outs := outs ++ [(if uniform then "U" else "N") ++ "/" ++ ";".intercalate per]
+  return s!"{id}\t{"|".intercalate outs}"
+
 def process (line : String) : String :=
   match Sexp.parse line with
   | some [.list (.atom "q" :: args)] => (runQuery args).getD "ERR decode"
+  | some [.list (.atom "cache" :: args)] => (runCache args).getD "ERR decode"
   | some _ => "ERR unknown-command"
   | none => "ERR parse"
 
